@@ -70,15 +70,16 @@ def program_route(kind, n, text, route):
         return "#ruledef\n{\n    t {x: %s%d} => x\n}\nk = %s\nt k\n" % (kind, n, text)
     if route == "via_later_const":
         return "#ruledef\n{\n    t {x: %s%d} => x\n}\nt k\nk = %s\n" % (kind, n, text)
-    if route == "via_local":
-        # an outer rule with a wide SIZED signed parameter hands the value on by value (a local) into an asm block
-        return ("#ruledef\n{\n    t {x: %s%d} => x\n    w {y: s64} =>\n    {\n        q = y\n        asm { t {q} }\n    }\n}\nw %s\n" % (kind, n, text))
+    if route.startswith("via_local:"):
+        # an outer rule with a SIZED parameter (as wide as, or wider than, the inner one) hands the value on by value
+        # (a local) into an asm block: the inner range rule is about the value, not about the size it carries
+        return ("#ruledef\n{\n    t {x: %s%d} => x\n    w {y: %s} =>\n    {\n        q = y\n        asm { t {q} }\n    }\n}\nw %s\n" % (kind, n, route.split(":")[1], text))
     if route == "via_nested":
         return "#subruledef inner\n{\n    {x: %s%d} => x\n}\n#ruledef\n{\n    t {a: inner} => a\n}\nt %s\n" % (kind, n, text)
     raise ValueError(route)
 
 
-ROUTES = ["via_const", "via_later_const", "via_local", "via_nested"]
+ROUTES = ["via_const", "via_later_const", "via_local:s64", "via_local:s%d", "via_local:i%d", "via_local:u%d", "via_nested"]
 
 
 def gen_cases(chk):
@@ -148,6 +149,10 @@ def run(chk):
                 for dv in (-2, -1, 0, 1):
                     for route in ROUTES:
                         v = b + dv
+                        if "%d" in route:
+                            route = route % n
+                        if route.startswith("via_local:") and not in_range(route[10], int(route[11:]), v):
+                            continue          # the outer parameter itself rejects the value: not this family's subject
                         impl_lines.append("A\t10\t1\t1\t" + vlib.hx(program_route(kind, n, str(v), route)))
                         model_lines.append("T %s %d %s" % (kind, n, ("%x" % v) if v >= 0 else "-%x" % -v))
                         meta.append((kind, n, v, route, None, False))
